@@ -317,7 +317,7 @@ pub fn generate(thorough: bool, rng: &mut Rng, ops: &mut Vec<String>, stats: &mu
     ops.push("c15 ao copy".into());
     ops.push("c15 ao config.ao0,forget".into());
     // random sequences; append-only is switched off (and on again) inside some of them
-    let n = if thorough { 1500 } else { 120 };
+    let n = if thorough { 6000 } else { 500 };
     for _ in 0..n {
         let len = rng.range(2, 7);
         let mut seq: Vec<String> = Vec::new();
